@@ -224,18 +224,24 @@ def run_impl(cases, backend='s1', workdir=None, flags=(), tag='cases'):
     return parse_lines(out)
 
 
-def run_model(workdir, backend='s1', tag='cases'):
+def run_model(workdir, backend='s1', tag='cases', with_str=False):
     src = os.path.join(workdir, tag + '.' + backend + '.out')
-    p = subprocess.run([DRIVER, backend, src], stdout=subprocess.PIPE, stderr=subprocess.PIPE, timeout=3600)
+    p = subprocess.run([DRIVER, backend, src] + (['str'] if with_str else []), stdout=subprocess.PIPE, stderr=subprocess.PIPE, timeout=3600)
     if p.returncode != 0:
         raise BuildError('driver failed: rc=%s %s' % (p.returncode, p.stderr.decode(errors='replace')[-2000:]))
-    return parse_lines(p.stdout.decode(errors='surrogateescape'))
+    out = p.stdout.decode(errors='surrogateescape')
+    with open(os.path.join(workdir, tag + '.' + backend + '.model'), 'w', errors='surrogateescape') as f:
+        f.write(out)
+    return parse_lines(out)
 
 
-def run_shape(workdir, backend='s1', tag='cases'):
-    src = os.path.join(workdir, tag + '.' + backend + '.out')
+def run_shape(workdir, backend='s1', tag='cases', ext='.out'):
+    """SHAPE/SEM (from the implementation's STR lines) or MSHAPE/MSEM (from the model's MSTR lines)"""
+    src = os.path.join(workdir, tag + '.' + backend + ext)
     with open(src, 'rb') as f:
         p = subprocess.run([SHAPE], stdin=f, stdout=subprocess.PIPE, stderr=subprocess.PIPE, timeout=3600)
+    if p.returncode != 0:
+        raise BuildError('shape failed: rc=%s %s' % (p.returncode, p.stderr.decode(errors='replace')[-2000:]))
     return parse_lines(p.stdout.decode(errors='surrogateescape'))
 
 
